@@ -355,11 +355,45 @@ CHECKS['C19'] = dict(
              'calls:qstrgets', 'calls:qstrtok', 'calls:qstrtokenizer', 'calls:qstrreplace', 'calls:qstrdup_between', 'replace_triples', 'random_inputs'],
     assumptions=['reference definitions in h_string.c; empty search tokens for qstrreplace and nbytes > strlen(src) for qstrncpy are outside the domain', 'gcc 12 ASan/UBSan'])
 
+
+def c20_counts(tier):
+    return (60000, 60000) if tier == 'thorough' else (3000, 3000)
+
+
+def c20_pre(tier, seed, bdir):
+    import subprocess, sys, os
+    from vf import VERIF, Inconclusive
+    ni, na = c20_counts(tier)
+    r = subprocess.run([sys.executable, os.path.join(VERIF, 'refs', 'gen_conf.py'), os.path.join(bdir, 'conf'), str(seed), str(ni), str(na)],
+                       stdout=subprocess.PIPE, stderr=subprocess.STDOUT, text=True)
+    if r.returncode != 0:
+        raise Inconclusive('document generator failed: ' + r.stdout[-2000:])
+
+
+def c20_jobs(tier, seed):
+    ni, na = c20_counts(tier)
+    return [Job('h_conf', 'asan', wraps=('alloc', 'popen'), args=['--cases-dir', '{bdir}/conf', '--ini', str(ni), '--apache', str(na)])]
+
+
+CHECKS['C20'] = dict(
+    title='configuration parsers deliver exactly what the file says', level='exploration',
+    pre=c20_pre, jobs=c20_jobs,
+    rule='documents are generated from the two grammars as abstract structures (refs/gen_conf.py); the text is rendered from the structure and the expected result is computed from the structure by reference semantics written from the documentation. '
+         'INI: entries, comments, blank lines, sections incl. [] and blanks, separator inside values, ${key} (plain and section-qualified, latest definition), ${%ENV} set/unset, redefinitions, CRLF, parse_str and parse_file with @INCLUDE side files; '
+         'oracle = the ordered (name, value) chain. Apache style: random option tables (take 0-7/TAKEALL, per-argument and default types, section ids, scopes ALL/ROOT/user, NULL callbacks + default handler), nesting depth <= 6, bare/single/double quoting with escapes, '
+         'tab/space layout, comments, all boolean spellings in random case, int/float forms, CASEINSENSITIVE / IGNOREUNKNOWN; every third document carries one fault (wrong count, wrong type at any position incl. beyond the fifth, wrong scope, unknown directive, unclosed or mismatched section); '
+         'oracle = callback stream (otype, section, sections, level, argv after unquoting and bool normalisation, parent chain; close callbacks carry the opening data), return count, rejection with path:line. evaluation = one document; distinct = distinct expected results.',
+    require=['ini_documents_parse_file', 'ini_documents_parse_str', 'ini_entries_compared', 'callbacks_compared', 'apache_documents_accepted_by_reference',
+             'apache_documents_rejected_by_reference', 'apache_fault:count', 'apache_fault:type', 'apache_fault:scope', 'apache_fault:unclosed', 'apache_fault:mismatch', 'apache_fault:unknown'],
+    assumptions=['reference semantics in refs/gen_conf.py follow the doc comments of qconfig.c / qaconf.c and examples/; undocumented forms are not generated (lines without separator, undefined ${name}, ${!cmd}, blanks before ">", +signed numbers, callbacks inside unknown sections)',
+                 'asan build: memory errors on well-formed input are reported as well'])
+
 # --------------------------------------------------------------------------- manifest texts
 NOT_APPLICABLE = {}
 DESIGN_REF = {}
 LEVEL_NOTE = {}
 TECHNIQUE = {
+    'C20': 'grammar-based document generation with reference interpreters on the abstract document; recorded callback stream / entry chain compared verbatim',
     'C19': 'reference-definition oracles + guard bytes + ASan on exact-size buffers, exhaustive over all strings up to length 5/7 over significant alphabets',
     'C18': 'differential oracle against independent reference hashes over a complete (length, alignment, content class) grid + address/tail independence under ASan with exact-end buffers',
     'C16': 'round-trip + format-predicate oracles with an independent RFC 4648 reference, exhaustive over all byte strings up to length 2/3 + random',
@@ -380,6 +414,7 @@ TECHNIQUE = {
     'C04': 'reference-model floor oracle + continuation multiset audit; CPU watchdog',
 }
 LEVEL_TEXT = {
+    'C20': 'Thousands of generated INI and Apache-style documents (valid and single-fault) are parsed by the real parsers; entry lists, callback streams, return counts and error lines are compared with reference results derived from the abstract documents.',
     'C19': 'Each routine is compared with an independent reference definition on every string up to length 5 (7 thorough) over the significant bytes, every buffer size for the bounded copies and every (src, token, word) triple for replace, with destinations in exact-size blocks under ASan and guard bytes.',
     'C18': 'Every function is compared with an independent reference on the complete grid of lengths 1..600 x 8 alignments x 5 content classes (and large sizes, file ranges), at two placements with different trailing bytes, under ASan with buffers ending at the allocation end.',
     'C16': 'Every byte string up to length 2 (3 in the thorough tier, 16.8 M strings) and random strings up to 4 KiB are encoded, format-checked against the stated predicates / an independent RFC 4648 encoder, decoded and compared; query lists are assembled and parsed back.',
